@@ -338,6 +338,7 @@ class SymInt:
 
     def maybe_bits(self):
         if self.lo is None or self.hi is None or self.lo < 0: return None
+        if self.lo == self.hi: return self.lo
         m = (1 << self.hi.bit_length()) - 1
         return m if self.bits is None else (m & self.bits)
 
@@ -671,20 +672,32 @@ def _vars(e):
     return acc
 
 
+_SLICE_IDX = {}
+
+
 def slice_for(assumes, vs):
-    vs = set(v for v in vs if not v.startswith('@')); sel = []
-    rest = [(c, _vars(c)) for c in assumes]
-    changed = True
-    while changed:
-        changed = False
-        nrest = []
-        for c, cv in rest:
-            if cv & vs:
-                vs |= set(v for v in cv if not v.startswith('@')); sel.append(c); changed = True
-            else:
-                nrest.append((c, cv))
-        rest = nrest
-    return sel
+    """constraints of `assumes` transitively sharing a variable with vs (cone of influence)."""
+    key = id(assumes)
+    ent = _SLICE_IDX.get(key)
+    if ent is None or ent[0] is not assumes or ent[1] != len(assumes):
+        idx = {}; cvs = []
+        for i, c in enumerate(assumes):
+            cv = [v for v in _vars(c) if not v.startswith('@')]
+            cvs.append(cv)
+            for v in cv: idx.setdefault(v, []).append(i)
+        _SLICE_IDX.clear()
+        ent = (assumes, len(assumes), idx, cvs); _SLICE_IDX[key] = ent
+    idx, cvs = ent[2], ent[3]
+    seen_v = set(); seen_c = set(); st = [v for v in vs if not v.startswith('@')]
+    while st:
+        v = st.pop()
+        if v in seen_v: continue
+        seen_v.add(v)
+        for i in idx.get(v, ()):
+            if i in seen_c: continue
+            seen_c.add(i)
+            st.extend(cvs[i])
+    return [assumes[i] for i in sorted(seen_c)]
 
 
 def model_values(ctx, m):
